@@ -1032,6 +1032,23 @@ class Path:
 
             self.cut_loop(s, spec, test, pre_body, (itname,), stepf)
             return
+        if isinstance(it, SymZip):
+            # zip of symbolic sequences: position _i runs over 0 .. min(len) - 1, the target is the tuple of the _i-th elements
+            itname = '_i'
+            self.store_name(itname, 0)
+            lens = [self.length(q) for q in it.seqs]
+
+            def test():
+                return self.bool_and([self.compare_op(ast.Lt(), self.lookup(itname), ln) for ln in lens])
+
+            def pre_body():
+                self.assign(s.target, tuple(self.subscript(q, self.lookup(itname)) for q in it.seqs))
+
+            def stepf():
+                self.store_name(itname, self.binop(ast.Add(), self.lookup(itname), 1))
+
+            self.cut_loop(s, spec, test, pre_body, (itname,), stepf)
+            return
         raise Unsupported(f'for over {it!r}')
 
     st_AsyncFor = st_For
@@ -1759,6 +1776,13 @@ class SliceV:
 class SymRange:
     def __init__(self, start, stop, step):
         self.start, self.stop, self.step = start, stop, step
+
+
+class SymZip:
+    """zip(...) of symbolic sequences; consumed by st_For only"""
+
+    def __init__(self, seqs):
+        self.seqs = seqs
 
 
 class ConcIter:
